@@ -16,8 +16,9 @@ EXPLANATION = (
     "history line was copied into the buffer; the splitter slices at find(';') offsets. R5 (DOM): Up/Down step history.index only under "
     "a guard on it (or clamp it), and reset the cursor only under such a guard - a history key that does not change the focused entry leaves "
     "the cursor alone, as a plain editor does."
-    ' R1 also checks byte-index sinks (String::insert/remove/...: the position must be a boundary-safe byte offset). R4 also: update_next returns only with the draft focused (copy and focus reset on every path). R8: clearing the edit buffer is followed by cursor := 0 on every path to the return. R2 also: the count a step is guarded by is that of the line on show - get_current(), or the buffer once update_next dominates -, not of the hidden draft. R9: no function of the editor narrows a `char` to u8/u16 (`ch as u8`) outside an is_ascii test of that character. R10: no blank line is submitted - from the blank side of the draft test no `complete` answer is reachable, and the history list is only pushed to by TerminalHistory::push (from read_line, behind the raw read, with the buffer) and by the history-file loader behind a `trim().is_empty()` test. The scope of R3 is the whole terminal reader (read, read_line, the raw read, the prompt, the history push, the splitter); lace::output and lace::term are the environment side (not entered), a failed write to the terminal is assumption A7, and the non-blank assertion of read_line is conditional on R10.'
+    ' R1 also checks byte-index sinks (String::insert/remove/...: the position must be a boundary-safe byte offset). R4 also: update_next returns only with the draft focused (copy and focus reset on every path). R8: clearing the edit buffer is followed by cursor := 0 on every path to the return. R2 also: the count a step is guarded by is that of the line on show - get_current(), or the buffer once update_next dominates -, not of the hidden draft. R9: no function of the editor narrows a `char` to u8/u16 (`ch as u8`) outside an is_ascii test of that character. R10: no blank line is submitted - from the blank side of the draft test no `complete` answer is reachable, and the history list is only pushed to by TerminalHistory::push (from read_line, behind the raw read, with the buffer) and by the history-file loader behind a `trim().is_empty()` test. The scope of R3 is the whole terminal reader (read, read_line, the raw read, the prompt, the history push, the splitter); lace::output and lace::term are the environment side (not entered), a failed write to the terminal is assumption A7, and the non-blank assertion of read_line is conditional on R10. R6 also: the keys that only move (Left, Right, Ctrl+Left/Right, Up, Down) never call update_next. R10 also: the condition in front of the history push, read for an empty list, comes out on the pushing side (the first line is remembered).'
 )
+
 NOT_DECIDED = "equality with a reference editor for all key sequences; that helper results are <= the character count (value-level)"
 
 T = "lace::debugger::command::reader::terminal::"
@@ -289,6 +290,20 @@ def run(ctx):
                           "%s can finish without update_next() (lines %s): a plain editor treats the recalled history line as the line being edited as soon as an editing key "
                           "is pressed, even if nothing is removed; here the old draft stays in place and later Up/Down/Enter act on another text"
                           % (knames[vi], hk.path_lines(hk.path(tb, skip, avoid=un_blocks))))
+    # ... and the keys that only move (Left, Right, Ctrl+Left/Right, Up, Down) leave the focus where it is: adopting the history line on a mere
+    # cursor movement makes the next Up/Down start from the draft instead of from the recalled entry
+    NAV = {"Left", "Right", "CtrlLeft", "CtrlRight", "Up", "Down"}
+    for vi in sorted(ktargets):
+        if knames.get(vi) not in NAV:
+            continue
+        ctx.instance(1)
+        reg_ = kit.dominated_region(hk, ktargets[vi])
+        hit_ = [b for b in un_blocks if b in reg_]
+        ctx.oblig(not hit_, {"key": knames[vi], "update_next": "not called"}, "arm region scan")
+        if hit_:
+            ctx.violation("navigation-adopts|%s" % knames[vi], sp_file_line(hk.term(hit_[0]).get("sp")),
+                          "the %s key calls update_next: a key that only moves the cursor or the focus turns the recalled history line into the draft, and the next "
+                          "history key starts from the wrong entry" % knames[vi])
     ctx.finish_rule()
 
     # ------------------------------------------------------------------ R8
@@ -424,6 +439,53 @@ def run(ctx):
         for bb_, t_, c_ in f.calls():
             if c_ and c_.endswith("Vec::<T, A>::push") and "Vec<alloc::string::String>" in (t_.get("arg_tys") or [""])[0]:
                 pushers.append((n, f, bb_, t_))
+    # the submitted line is remembered unless it repeats the newest entry - in particular the very first line of an empty history is: the
+    # condition in front of the push is read for the case `list.last() == None` and must come out on the pushing side
+    rlf = ctx.fn(T + "Terminal::read_line")
+    hp = [b for b, t, c in rlf.calls() if c == HIST + "push"]
+    ctx.instance(1)
+    def none_case(c):
+        c = kit.strip_refs(c)
+        if c[0] == "un" and c[1] == "Not":
+            v = none_case(c[2])
+            return None if v is None else 1 - v
+        if c[0] == "call":
+            nm = str(c[1])
+            about_last = any(x[0] == "call" and re.search(r"(\[T\]>|Vec::<T, A>|VecDeque<.*>)::last$|::back$", str(x[1])) for x in expr_walk(c))
+            if not about_last:
+                return None
+            if nm.endswith("Option::<T>::is_none_or") or nm.endswith("Option::<T>::is_none"):
+                return 1
+            if nm.endswith("Option::<T>::is_some_and") or nm.endswith("Option::<T>::is_some"):
+                return 0
+            if re.search(r"PartialEq(<.*>)?>?::ne$", nm):
+                return 1
+            if re.search(r"PartialEq(<.*>)?>?::eq$", nm):
+                return 0
+            if nm.endswith("Option::<T>::map_or") and len(c[2]) == 3 and kit.strip_refs(c[2][1])[0] == "const":
+                return 1 if kit.strip_refs(c[2][1])[1] else 0
+        return None
+    ok_first, why_first = False, "no condition on the newest history entry in front of the push"
+    for pb in hp:
+        for d_ in sorted(rlf.dominators().get(pb, ())):
+            tt_ = rlf.term(d_)
+            if d_ == pb or tt_["k"] != "switch":
+                continue
+            v_ = none_case(rlf.expr(tt_["a"], 10))
+            if v_ is None:
+                continue
+            tg_ = {v: x for v, x in tt_["targets"]}
+            tgt_ = tg_.get(v_, tt_["otherwise"])
+            if tgt_ == pb or pb in rlf.reachable(tgt_):
+                ok_first = True
+            else:
+                why_first = "with an empty history the test in front of the push comes out on the side that does not push"
+    if hp and not any(rlf.term(d_)["k"] == "switch" and none_case(rlf.expr(rlf.term(d_)["a"], 10)) is not None for pb in hp for d_ in rlf.dominators().get(pb, ()) if d_ != pb):
+        ok_first = bool(hp)          # the push is unconditional (or its condition does not consult the list): the first line is remembered
+    ctx.oblig(ok_first, {"first line of an empty history": "remembered"}, "condition read for last() == None")
+    if not ok_first:
+        ctx.violation("first-line-not-remembered", rlf.file_line(), "read_line does not remember the line submitted on an empty history (%s): Up then recalls nothing, "
+                      "and the history file stays empty for good" % why_first)
     ctx.need(len(pushers) >= 2, "pushes into a list of history lines (found %d)" % len(pushers))
     for n, f, bb_, t_ in pushers:
         ctx.instance(1)
